@@ -197,6 +197,7 @@ class Network:
                     # This would be a programmer "error", but we will allow it.
                     self.verified_peers.add(peer)
                     self.verified_by_public_key_bin[peer.public_key.key_to_bin()] = peer
+                    self._invalidate_service_cache(peer)
                     list(map(methodcaller("on_peer_added", peer), self.peer_observers))
             elif all(address not in self.blacklist for address in peer.addresses.values()):
                 for address in peer.addresses.values():
@@ -205,7 +206,15 @@ class Network:
                 if peer not in self.verified_peers:
                     self.verified_peers.add(peer)
                     self.verified_by_public_key_bin[peer.public_key.key_to_bin()] = peer
+                    self._invalidate_service_cache(peer)
                     list(map(methodcaller("on_peer_added", peer), self.peer_observers))
+
+    def _invalidate_service_cache(self, peer: Peer) -> None:
+        """
+        Forget the cached peer lists of the services a newly verified peer advertised before it was verified.
+        """
+        for service in self.services_per_peer.get(peer.public_key.key_to_bin(), ()):
+            self.reverse_service_lookup.pop(service, None)
 
     def register_service_provider(self, service_id: Service, overlay: Overlay) -> None:
         """
